@@ -129,7 +129,12 @@ func (m *M) callFn(fn *ssa.Function, args []Value, env []Value, retTo ssa.Value,
 		ex.mu.Unlock()
 		m.noteSchedEvent(name)
 		m.pushFrame(tf, args, nil, retTo, isDefer)
-		m.st.top().Atomic = true
+		// a model of an internally synchronised library object (sync.Map, the k8s LRU cache) is one atomic step for
+		// the thread scheduler; other replacements (e.g. a retry helper that calls back into the code) are not
+		switch funcPkgPath(fn) {
+		case "sync", "k8s.io/apimachinery/pkg/util/cache":
+			m.st.top().Atomic = true
+		}
 		return
 	}
 	// 3. intrinsics
